@@ -296,12 +296,21 @@ def mime_algorithm(site, fam, reg, b, k):
 
 
 @functools.lru_cache(maxsize=64)
-def agnostic_algorithm(fam, num_domains, b, k, reg='none'):
+def agnostic_init_weights(num_domains, zero_w):
+  if zero_w and num_domains >= 2:
+    # domain 0 starts with weight 0: a client holding only that domain has
+    # scaling weight beta = 0 -- examples, but none that counts
+    return np.asarray([0.0] + [1.0 / (num_domains - 1)] * (num_domains - 1), np.float32)
+  return np.full((num_domains,), 1.0 / num_domains, np.float32)
+
+
+@functools.lru_cache(maxsize=64)
+def agnostic_algorithm(fam, num_domains, b, k, reg='none', zero_w=False, steps=0):
   return agnostic_fed_avg.agnostic_federated_averaging(
       LOSS[fam], fedjax.optimizers.sgd(0.5), fedjax.optimizers.sgd(1.0),
-      fedjax.ShuffleRepeatBatchHParams(batch_size=1, num_steps=0),
+      fedjax.ShuffleRepeatBatchHParams(batch_size=1, num_epochs=None, num_steps=steps, seed=0),
       fedjax.PaddedBatchHParams(batch_size=b, num_batch_size_buckets=k),
-      init_domain_weights=np.full((num_domains,), 1.0 / num_domains, np.float32),
+      init_domain_weights=agnostic_init_weights(num_domains, zero_w),
       domain_learning_rate=0.125, domain_algorithm='eg', domain_window_size=1,
       init_domain_window=np.ones((num_domains,), np.float32),
       regularizer=regularizer(fam, reg))
@@ -635,6 +644,10 @@ def run_average_loss(case):
   base = None
   for gi, geom in enumerate(geoms_of(case)):
     batches = [make_batches(fam, case['clients'][ci], geom, ci) for ci in range(nc)]
+    if case.get('batches_as') == 'iterator':
+      # a client's batches as the one-shot iterator the centralised producers
+      # (padded_batch_client_datasets, a generator over a view) hand out
+      batches = [iter(b) if ci % 2 else (x for x in b) for ci, b in enumerate(batches)]
     if site == 'evaluate_average_loss':
       got = [fedjax.evaluate_average_loss(
           params_tree(fam, pints[ci]), batches[ci], key(case, ci), LOSS[fam],
@@ -876,7 +889,10 @@ def run_domain_metrics(case):
     else:
       # Packaged algorithm: the window holds the summed counts, the domain
       # weights are the EG update with the mean per-domain loss.
-      alg = agnostic_algorithm(fam, nd, geom['b'], geom['k'], reg)
+      zero_w = bool(case.get('zero_weight_domain'))
+      # (one local step when every client has an example to draw, else none)
+      steps = 1 if (case.get('local_step') and all(sizes)) else 0
+      alg = agnostic_algorithm(fam, nd, geom['b'], geom['k'], reg, zero_w, steps)
       state = alg.init(params_tree(fam, ints))
       clients = [(client_id(ci),
                   client_dataset(fam, case['clients'][ci], with_dom=True),
@@ -890,8 +906,14 @@ def run_domain_metrics(case):
               'domain_num:differs_from_real_example_counts',
               lambda: f'{what}: window {window.tolist()} want {tot_num.tolist()}')
       mean = np.where(tot_num > 0, tot_loss / np.maximum(tot_num, 1.0), 0.0)
-      w = np.exp(0.125 * mean) / nd
+      w = np.exp(0.125 * mean) * agnostic_init_weights(nd, zero_w).astype(np.float64)
       w = w / w.sum()
+      # finite inputs, finite round: also for a client all of whose examples lie
+      # in a domain of weight 0 (its scaled loss is 0, and so is its gradient)
+      leaves = jax.tree_util.tree_leaves(new_state.params)
+      require(all(bool(np.isfinite(np.asarray(l)).all()) for l in leaves),
+              'agnostic:non_finite_params_after_a_round_over_finite_inputs',
+              lambda: f'{what}: zero-weight domain {zero_w}, local steps {steps}')
       got_w = np.asarray(new_state.domain_weights, np.float64)
       # d w_d / d mean_d <= lr * w_d, so TOL * (1 + max mean loss) covers it.
       if reg == 'none':
@@ -1054,7 +1076,8 @@ def average_loss_case(draw, tier):
           'clients': clients,
           'geoms': draw(geoms_strategy(tier, sizes, ['padded', 'padded+', 'layout', 'layout', 'plain'])),
           'seed': draw(st.integers(0, 2**31 - 8)),
-          'prep': draw(st.integers(0, 3)) == 0}
+          'prep': draw(st.integers(0, 3)) == 0,
+          'batches_as': draw(st.sampled_from(['list', 'list', 'iterator']))}
 
 
 @st.composite
@@ -1104,12 +1127,25 @@ def domain_case(draw, tier):
   # algorithm takes a regularizer (it must not make the domain weights depend on
   # the batch geometry).
   reg = 'none' if direct else draw(st.sampled_from(REGS_OPAQUE))
+  if not direct and nd >= 2 and draw(st.booleans()):
+    # the round this site is about: every client has examples, client 0 only in
+    # domain 0, whose weight starts at 0, and there is a local step to take
+    clients = [c for c in clients if c] or [[[1, 2, 3, 0]]]
+    for row in clients[0]:
+      row[3] = 0
+    return {'site': site, 'family': fam, 'reg': reg, 'num_domains': nd,
+            'alpha': draw(st.lists(st.integers(0, 16), min_size=nd, max_size=nd)),
+            'params': draw(params_strategy(fam)), 'clients': clients,
+            'geoms': geoms[:2], 'seed': draw(st.integers(0, 2**31 - 8)),
+            'prep': False, 'zero_weight_domain': True, 'local_step': True}
   return {'site': site, 'family': fam, 'reg': reg, 'num_domains': nd,
           'alpha': draw(st.lists(st.integers(0, 16), min_size=nd, max_size=nd)),
           'params': draw(params_strategy(fam)), 'clients': clients,
           'geoms': geoms if direct else geoms[:2],
           'seed': draw(st.integers(0, 2**31 - 8)),
-          'prep': draw(st.integers(0, 3)) == 0}
+          'prep': draw(st.integers(0, 3)) == 0,
+          'zero_weight_domain': (not direct) and draw(st.booleans()),
+          'local_step': (not direct) and draw(st.booleans())}
 
 
 # ------------------------------- per-domain counts with a low-precision loss
